@@ -17,8 +17,9 @@ impl OptionExt for Option<Component> {
 
 //@ item is_empty file=src/sys/fs/path.rs fn=is_empty props=C14,C15,C12
 //@ sig pub fn is_empty<T: Into<PathBuf>>(path: T) -> bool
-//@ rw R1 1 ⟦path.into() == PathBuf::new()⟧ => ⟦path.to_path_buf().eq(&PathBuf::new())⟧
-//@ ins before ⟦path.to_path_buf()⟧
+//@ rw R1 * ⟦path.into() == PathBuf::new()⟧ => ⟦path.to_path_buf().eq(&PathBuf::new())⟧
+//@ rw R1 * ⟦path.into()⟧ => ⟦path.to_path_buf()⟧
+//@ ins start
     proof { assert(path.comps().len() == 0 ==> path.comps() =~= Seq::<Component>::empty()); }
 //@ endins
 pub fn is_empty(path: &PathBuf) -> (b: bool)
